@@ -399,12 +399,12 @@ impl BackendRun {
 
     /// after an interrupted add_version(parent, payload): what every handle now says the child of
     /// `parent` is
-    fn resolve_av(&mut self, parent: Uuid, payload: &[u8]) -> String {
+    fn resolve_av(&mut self, h: usize, parent: Uuid, payload: &[u8]) -> String {
         let known_child = self.accepted.len();
         let mut seen: Vec<Option<(Uuid, Vec<u8>)>> = Vec::new();
-        if self.handles.iter().all(|h| h.is_none()) {
-            // nobody else is there to look: the stopped process starts again
-            let h = self.down.iter().position(|d| *d).unwrap_or(0);
+        if self.handles.iter().all(|x| x.is_none()) {
+            // nobody else is there to look: the process that just stopped starts again (any OTHER
+            // stopped process stays down: its own interrupted request is settled when it restarts)
             self.ensure_open(h);
         }
         for i in 0..self.handles.len() {
@@ -590,7 +590,7 @@ impl BackendRun {
                         self.stat("add_version.interrupted");
                         let _ = e;
                         self.crash(h);
-                        let res = self.resolve_av(parent, &pl2);
+                        let res = self.resolve_av(h, parent, &pl2);
                         if res == "absent" && self.down[h] {
                             self.pending[h] = Some((parent, pl2.clone(), p.to_string(), b.to_string()));
                         }
@@ -707,7 +707,7 @@ impl BackendRun {
                 // an interrupted add_version of this handle that left no trace so far may be finished
                 // now that its process is back (git: the unpushed commit is pushed on open)
                 if let Some((parent, payload, psym, bhex)) = self.pending[h].take() {
-                    let res = self.resolve_av(parent, &payload);
+                    let res = self.resolve_av(h, parent, &payload);
                     if res == "accepted" {
                         self.stat("late-accepted");
                         return (format!("REOPEN {} !accepted {} {}", h, psym, bhex), format!("reopened accepted v{}", self.accepted.len()));
